@@ -225,6 +225,22 @@ static void run(void) {
                                     vf_add("sparse.cells", 1);
                                 }
         }
+        /* the far tips of the base cells' footprints: (d1, d, d, ..., d) for every base cell, first digit and repeated digit, res 2-15 */
+        for (int res = 2; res <= 15; res++)
+            for (int bc = 0; bc < 122; bc++)
+                for (int d1 = 0; d1 <= 6; d1++)
+                    for (int dd = 1; dd <= 6; dd++) {
+                        if (!VF_MINE(idx++)) continue;
+                        int dg[15];
+                        for (int i = 0; i < res; i++) dg[i] = dd;
+                        dg[0] = d1;
+                        H3Index h = vf_make_cell(res, bc, dg);
+                        if (!ref_is_valid_cell(h)) continue;
+                        vf_case("rt %016" PRIx64, h);
+                        roundtrip(h);
+                        if ((idx & 15) == 0) vf_distinct(h);
+                        vf_add("footprint_tip.cells", 1);
+                    }
     } else {
         /* whole resolutions */
         int full = VF_T(5, 6), rtonly = VF_T(5, 7);
